@@ -181,6 +181,8 @@ struct TcpNameserver {
     tcp_last_send_activity: Instant,
     tcp_last_recv_activity: Instant,
     qid2reply: std::collections::HashMap<u16, Responder<super::dnspkt::DNSPkt>>,
+    /* Bytes received from the connection that do not yet form a complete message. */
+    tcp_rbuf: Vec<u8>,
 }
 
 impl TcpNameserver {
@@ -192,6 +194,7 @@ impl TcpNameserver {
             tcp_last_send_activity: Instant::now(),
             tcp_last_recv_activity: Instant::now(),
             qid2reply: Default::default(),
+            tcp_rbuf: Default::default(),
         });
 
         tokio::task::spawn(ret.run(rx));
@@ -266,20 +269,34 @@ impl TcpNameserver {
     async fn read_reply(&mut self) -> Result<Vec<u8>, Error> {
         if let Some(ref mut tcp_sock) = self.tcp {
             use tokio::io::AsyncReadExt as _;
-            let mut lbuf = [0u8; 2];
-            tcp_sock
-                .read_exact(&mut lbuf)
-                .await
-                .map_err(Error::FailedToRecv)?;
-            let l = u16::from_be_bytes(lbuf);
-            let mut msg_buf = vec![0u8; l as usize];
-            log::trace!("Reading {} bytes from TCP socket", l);
-            tcp_sock
-                .read_exact(&mut msg_buf[..])
-                .await
-                .map_err(Error::FailedToRecv)?;
-            self.tcp_last_recv_activity = Instant::now();
-            Ok(msg_buf)
+            /* This future is raced against the request channel in run(), and is dropped whenever
+             * a new query arrives first.  read_exact() is not cancellation safe (a partially read
+             * message would be lost and the framing desynchronised), so accumulate into a buffer
+             * that survives cancellation, using read() which is cancellation safe.
+             */
+            loop {
+                if self.tcp_rbuf.len() >= 2 {
+                    let l = u16::from_be_bytes([self.tcp_rbuf[0], self.tcp_rbuf[1]]) as usize;
+                    if self.tcp_rbuf.len() >= 2 + l {
+                        let msg_buf = self.tcp_rbuf[2..2 + l].to_vec();
+                        self.tcp_rbuf.drain(..2 + l);
+                        self.tcp_last_recv_activity = Instant::now();
+                        return Ok(msg_buf);
+                    }
+                }
+                let mut buf = [0u8; 4096];
+                let n = tcp_sock
+                    .read(&mut buf)
+                    .await
+                    .map_err(Error::FailedToRecv)?;
+                if n == 0 {
+                    return Err(Error::FailedToRecv(
+                        std::io::ErrorKind::UnexpectedEof.into(),
+                    ));
+                }
+                log::trace!("Read {} bytes from TCP socket", n);
+                self.tcp_rbuf.extend_from_slice(&buf[..n]);
+            }
         } else {
             panic!("Read from non existant tcp socket");
         }
@@ -299,6 +316,7 @@ impl TcpNameserver {
 
     fn tcp_teardown(&mut self, err: Error) {
         self.tcp = None;
+        self.tcp_rbuf.clear();
         log::trace!("Tearing down {} TCP channel: {}", self.addr, err);
         for (_qid, chan) in self.qid2reply.drain() {
             chan.send(Err(Error::TcpConnection(format!(
